@@ -253,6 +253,31 @@ def obligations(r, tier, seed):
     obs.append(Ob("C08/scaling-all-information", scaling, scope="shape-bounded", bound="one 3-vertex graph", solver="constrained", light=True,
                   funcs=["graphslam.graph.Graph._calc_chi2_gradient_hessian", BASE + ".calc_chi2_gradient_hessian"]))
 
+    def scaling_existing(k):
+        # the information matrices of an EXISTING graph of built-in edges are re-weighted (replaced for one edge, scaled in place for
+        # the others): chi2 as the graph reports it scales accordingly, on every later query
+        r_ = k.r
+        vs = [r_.Vertex(0, k.pose("SE2", "a")), r_.Vertex(1, k.pose("R2", "l")), r_.Vertex(2, k.pose("SE2", "b"))]
+        es = [r_.EdgeOdometry([0, 2], k.sym_matrix("O1", 3), k.pose("SE2", "z1")), r_.EdgeOdometry([2, 0], k.sym_matrix("O2", 3), k.pose("SE2", "z2")),
+              r_.EdgeLandmark([2, 1], k.sym_matrix("O3", 2), k.pose("R2", "z3"), k.pose("SE2", "off"), 0)]
+        g = r_.Graph(es, vs)
+        before = g.calc_chi2()
+        c = k.pos("c")
+        es[0].information = c * es[0].information
+        for e in es[1:]:
+            if k.mode == "sym" or e.information.dtype.kind == "f":
+                e.information[...] = c * e.information          # in place
+            else:
+                e.information = c * e.information               # (an integer-typed matrix cannot hold the scaled values in place)
+        k.eq(g.calc_chi2(), c * before, "Graph.calc_chi2() scales by c after the information matrices of the existing graph were scaled")
+        k.eq(g.calc_chi2(), c * before, "... and on a second query")
+        tot = 0
+        for e in es:
+            tot = tot + e.calc_chi2()
+        k.eq(g.calc_chi2(), tot, "... and equals the sum of the edges' own chi2")
+    obs.append(Ob("C08/scaling-all-information/existing-graph-of-built-in-edges", scaling_existing, scope="shape-bounded", bound="one 3-vertex, 3-edge SE2/R2 graph",
+                  funcs=["graphslam.graph.Graph.calc_chi2", BASE + ".calc_chi2"]))
+
     # ---- scaling and the stopping rule: the documented rule looks at the RELATIVE decrease only, so a run on the graph with
     #      all information scaled by c > 0 (chi2 values c*c_s) takes the same decisions.  The chi2 values of C12's obligation are
     #      arbitrary non-negative reals, so "scaled by c" is a substitution instance of it: the same obligation is stated here
